@@ -188,7 +188,8 @@ class PtnFilterChord(PtnFilter):
             A boolean on filter result
         """
 
-        return data not in self.ar if self.invert_filter else data in self.ar
+        is_in = bool(np.any(np.all(self.ar == np.asarray(data), axis=1)))
+        return not is_in if self.invert_filter else is_in
 
     class Option:
         """The methods available to use in fromChord
